@@ -206,7 +206,12 @@ class LoopContract:
         """decl ids of locals (live at loop entry) that the loop may modify: every non-const use that is not a plain read"""
         mod = set()
 
-        def visit(x, parent):
+        def op_name(call):
+            c = call['inner'][0]
+            while c.get('kind') != 'DeclRefExpr' and c.get('inner'): c = c['inner'][0]
+            return (c.get('referencedDecl') or {}).get('name', '')
+
+        def visit(x, parent, gparent=None):
             if not isinstance(x, dict): return
             k = x.get('kind')
             if k == 'DeclRefExpr':
@@ -215,12 +220,25 @@ class LoopContract:
                     qt = x.get('type', {}).get('qualType', '')
                     if qt.startswith('const ') or ' const' in qt.split('<')[0]: return
                     if parent is not None and parent.get('kind') == 'ImplicitCastExpr' and parent.get('castKind') == 'LValueToRValue': return
+                    t = TY.parse(x.get('type', {}).get('desugaredQualType') or qt)
+                    if t.kind == 'ptr':
+                        # a pointer variable is modified only by assignment / reset / swap / ++ --, not by dereferencing it
+                        p = parent; g = gparent
+                        while p is not None and p.get('kind') in ('ImplicitCastExpr', 'ParenExpr'): p, g = g, None
+                        if p is None: return
+                        pk = p.get('kind')
+                        if pk == 'BinaryOperator' and p.get('opcode', '').endswith('=') and p.get('opcode') not in ('==', '!=', '<=', '>=') and p['inner'][0] is x: pass
+                        elif pk == 'UnaryOperator' and p.get('opcode') in ('++', '--', '&'): pass
+                        elif pk == 'CXXOperatorCallExpr' and op_name(p) in ('operator=', 'operator++', 'operator--'): pass
+                        elif pk == 'MemberExpr' and p.get('name') in ('reset', 'swap'): pass
+                        elif pk in ('CallExpr', 'CXXMemberCallExpr', 'CXXConstructExpr'): pass     # may be passed by non-const reference
+                        else: return
                     mod.add(rd['id'])
                 return
             if k == 'LambdaExpr':
-                for c in x.get('inner', [])[1:]: visit(c, x)
+                for c in x.get('inner', [])[1:]: visit(c, x, parent)
                 return
-            for c in x.get('inner', []): visit(c, x)
+            for c in x.get('inner', []): visit(c, x, parent)
         for nd in nodes:
             if isinstance(nd, dict): visit(nd, None)
         return mod
@@ -243,6 +261,13 @@ class LoopContract:
             if isinstance(v, LVS): continue     # references / objects: contents live in the heap
             st.env[vid] = self.havoc_value(eng, v, eng.var_names.get(vid, 'v'))
         for key in self.modifies:
+            if isinstance(key, tuple):
+                k_, fn_ = key
+                arr = eng.harr(st, k_, z3.ArraySort(I, eng.key_sort(k_)))
+                for r in fn_(LoopCtx(eng, entry, entry, fr, range_info)):
+                    arr = z3.Store(arr, r, eng.fresh(k_ + '!h', arr.sort().range()))
+                st.heap[k_] = arr
+                continue
             if key == '*':
                 kept = {k: eng.harr(st, k, z3.ArraySort(I, eng.key_sort(k))) for k in self.keep_keys}
                 eng.havoc_all(st)
@@ -264,6 +289,7 @@ class LoopContract:
         sb = st.clone()
         c = guard(sb)
         sx = sb.clone(); sx.pc.append(z3.Not(c))
+        sx.ghost['loop_exit:%s' % self.ordinal] = Opaque('state', sx.clone())      # what held on leaving the loop, for postconditions
         sb.pc.append(c)
         var0 = self.decreases(LoopCtx(eng, sb, entry, fr, range_info)) if self.decreases else None
         if bind is not None: bind(sb)
@@ -305,8 +331,9 @@ class LoopContract:
                 if h is None or arr is None or h is arr or h.eq(arr): continue
                 eng.obligations.append(Obligation('loop-frame[%s]:%s' % (self.ordinal, key), s2.pc, frame_goal(arr, h), 'frame', eng.where(n, fr), info={'fn': fr.qname}))
             return
+        partial = set(k[0] for k in self.modifies if isinstance(k, tuple))
         for key, arr in s2.heap.items():
-            if key in self.modifies: continue
+            if key in self.modifies or key in partial: continue
             h = head.heap.get(key)
             if h is None: h = eng.base_arrays.get(key)
             if h is None or h is arr or h.eq(arr): continue
